@@ -86,6 +86,11 @@ def _key_is_normalised(c: Ctx, f: Func, key: ast.AST, at: ast.AST, rd: Reaching)
         return cs is not None and nr in cs.callees and len(cs.callees) == 1
     if isinstance(key, ast.Name):
         ds = rd.at_ast(at, key.id)
+        if ds and all(d.kind == "param" for d in ds):
+            # a helper's parameter: every caller must pass a normalised key
+            from ..interproc import actuals, reaching
+            acts = actuals(c, f, key.id)
+            return bool(acts) and all(_key_is_normalised(c, caller, a, cs.node, reaching(c, caller)) for (caller, a, cs) in acts)
         return bool(ds) and all(d.kind == "assign" and d.value is not None and _key_is_normalised(c, f, d.value, d.stmt, rd) for d in ds)
     return False
 
@@ -125,58 +130,66 @@ def rule_refkey(c: Ctx) -> RuleResult:
                   "the key is a normalizeReference(...) result on every path" if ok else
                   f"the reference table is accessed with key `{U(key)}`, which is not (only) a normalizeReference(...) result: labels that "
                   f"differ in case or inner whitespace would not meet")
-    # writer discipline in the reference rule
-    f = c.p.func("rules_block/reference.py:reference")
-    cfg, res = c.facts(f)
-    stores = [n for n in own_nodes(f.node) if isinstance(n, ast.Assign) and len(n.targets) == 1 and isinstance(n.targets[0], ast.Subscript)
-              and (_refs_expr(n.targets[0].value))]
-    ralias: set[str] = set()
-    for n in own_nodes(f.node):
-        if isinstance(n, ast.Assign) and len(n.targets) == 1 and isinstance(n.targets[0], ast.Name):
-            v = n.value
-            if _refs_expr(v) or (isinstance(v, ast.Call) and isinstance(v.func, ast.Attribute) and v.func.attr == "setdefault"
-                                 and _is_env_alias(v.func.value) and v.args and isinstance(v.args[0], ast.Constant) and v.args[0].value == "references"):
-                ralias.add(n.targets[0].id)
-    setdefs = [n for n in own_nodes(f.node) if isinstance(n, ast.Call) and isinstance(n.func, ast.Attribute) and n.func.attr == "setdefault"
-               and (_refs_expr(n.func.value) or (isinstance(n.func.value, ast.Name) and n.func.value.id in ralias)) and len(n.args) == 2
-               and not isinstance(n.args[0], ast.Constant)]
-    stores += [n for n in own_nodes(f.node) if isinstance(n, ast.Assign) and len(n.targets) == 1 and isinstance(n.targets[0], ast.Subscript)
-               and isinstance(n.targets[0].value, ast.Name) and n.targets[0].value.id in ralias]
-    dups = [n for n in own_nodes(f.node) if isinstance(n, ast.Call) and isinstance(n.func, ast.Attribute) and n.func.attr == "append"
-            and "duplicate_refs" in U(n.func.value)]
-    done = False
-    for s in stores:
-        key = U(s.targets[0].slice)          # type: ignore[attr-defined]
-        tbl = U(s.targets[0].value)          # type: ignore[attr-defined]
-        guarded = False
-        for cn in cfg.owner(s):
-            z = res.get(cn.id)
-            if z is not None and z.holds(f"{key} in {tbl}", False):
-                guarded = True
-        done = True
-        r.add(f"{f.short}|first-wins", c.where(f, s), f.short, U(s)[:70], "discharged" if guarded else "violation",
-              f"the store is dominated by `{key} not in {tbl}`: an existing definition is never overwritten" if guarded else
-              f"the table store is not guarded by `{key} not in {tbl}`: a later definition of a label would replace the first one")
-        # complement appends to duplicate_refs
-        okd = False
-        for d in dups:
-            for cn in cfg.owner(d):
+    # writer discipline in the reference rule (or the private helper it delegates the bookkeeping to)
+    ref_rule = c.p.func("rules_block/reference.py:reference")
+    writers = [ref_rule] + [g for cs in c.cg.sites.get(ref_rule, []) if cs.kind == "direct" for g in cs.callees if g.module is ref_rule.module]
+    done_any = False
+    for f in writers:
+        has_store = any(isinstance(n, (ast.Assign, ast.Call)) and "references" in U(n) for n in own_nodes(f.node))
+        if not has_store:
+            continue
+        cfg, res = c.facts(f)
+        stores = [n for n in own_nodes(f.node) if isinstance(n, ast.Assign) and len(n.targets) == 1 and isinstance(n.targets[0], ast.Subscript)
+                  and (_refs_expr(n.targets[0].value))]
+        ralias: set[str] = set()
+        for n in own_nodes(f.node):
+            if isinstance(n, ast.Assign) and len(n.targets) == 1 and isinstance(n.targets[0], ast.Name):
+                v = n.value
+                if _refs_expr(v) or (isinstance(v, ast.Call) and isinstance(v.func, ast.Attribute) and v.func.attr == "setdefault"
+                                     and _is_env_alias(v.func.value) and v.args and isinstance(v.args[0], ast.Constant) and v.args[0].value == "references"):
+                    ralias.add(n.targets[0].id)
+        setdefs = [n for n in own_nodes(f.node) if isinstance(n, ast.Call) and isinstance(n.func, ast.Attribute) and n.func.attr == "setdefault"
+                   and (_refs_expr(n.func.value) or (isinstance(n.func.value, ast.Name) and n.func.value.id in ralias)) and len(n.args) == 2
+                   and not isinstance(n.args[0], ast.Constant)]
+        stores += [n for n in own_nodes(f.node) if isinstance(n, ast.Assign) and len(n.targets) == 1 and isinstance(n.targets[0], ast.Subscript)
+                   and isinstance(n.targets[0].value, ast.Name) and n.targets[0].value.id in ralias]
+        dups = [n for n in own_nodes(f.node) if isinstance(n, ast.Call) and isinstance(n.func, ast.Attribute) and n.func.attr == "append"
+                and "duplicate_refs" in U(n.func.value)]
+        done = False
+        for s in stores:
+            key = U(s.targets[0].slice)          # type: ignore[attr-defined]
+            tbl = U(s.targets[0].value)          # type: ignore[attr-defined]
+            guarded = False
+            for cn in cfg.owner(s):
                 z = res.get(cn.id)
-                if z is not None and z.holds(f"{key} in {tbl}", True):
-                    okd = True
-        r.add(f"{f.short}|duplicates", c.where(f, dups[0] if dups else s), f.short, U(dups[0])[:70] if dups else "-", "discharged" if okd else "violation",
-              "when the label is already defined the definition is appended to duplicate_refs" if okd else
-              "a definition whose label is already in the table is not recorded in duplicate_refs on the complementary path")
-    for sd in setdefs:
-        # setdefault form: the duplicate branch must test identity with the stored object
-        par = f.module.parents.get(sd)
-        ok = isinstance(par, ast.Compare) and len(par.ops) == 1 and isinstance(par.ops[0], (ast.IsNot, ast.Is)) and bool(dups)
-        done = True
-        r.add(f"{f.short}|first-wins", c.where(f, sd), f.short, U(par if par is not None else sd)[:80], "discharged" if ok else "violation",
-              "setdefault keeps the first definition; the duplicate branch is taken when the stored object is not the new one (identity)" if ok else
-              "setdefault form without an identity test (`is not`) against the new entry: a later definition that compares equal to the "
-              "first is neither stored nor recorded as a duplicate")
-    if not done:
+                if z is not None and z.holds(f"{key} in {tbl}", False):
+                    guarded = True
+            done = True
+            r.add(f"{f.short}|first-wins", c.where(f, s), f.short, U(s)[:70], "discharged" if guarded else "violation",
+                  f"the store is dominated by `{key} not in {tbl}`: an existing definition is never overwritten" if guarded else
+                  f"the table store is not guarded by `{key} not in {tbl}`: a later definition of a label would replace the first one")
+            # complement appends to duplicate_refs
+            okd = False
+            for d in dups:
+                for cn in cfg.owner(d):
+                    z = res.get(cn.id)
+                    if z is not None and z.holds(f"{key} in {tbl}", True):
+                        okd = True
+            r.add(f"{f.short}|duplicates", c.where(f, dups[0] if dups else s), f.short, U(dups[0])[:70] if dups else "-", "discharged" if okd else "violation",
+                  "when the label is already defined the definition is appended to duplicate_refs" if okd else
+                  "a definition whose label is already in the table is not recorded in duplicate_refs on the complementary path")
+        for sd in setdefs:
+            # setdefault form: the duplicate branch must test identity with the stored object
+            par = f.module.parents.get(sd)
+            ok = isinstance(par, ast.Compare) and len(par.ops) == 1 and isinstance(par.ops[0], (ast.IsNot, ast.Is)) and bool(dups)
+            done = True
+            r.add(f"{f.short}|first-wins", c.where(f, sd), f.short, U(par if par is not None else sd)[:80], "discharged" if ok else "violation",
+                  "setdefault keeps the first definition; the duplicate branch is taken when the stored object is not the new one (identity)" if ok else
+                  "setdefault form without an identity test (`is not`) against the new entry: a later definition that compares equal to the "
+                  "first is neither stored nor recorded as a duplicate")
+        done_any = done_any or done
+    if not done_any:
+        f = ref_rule
         r.add(f"{f.short}|first-wins", c.where(f, f.node), f.short, "store into env['references']", "violation",
               "the reference rule no longer stores definitions into env['references'] in a recognised form")
     # creation guard
